@@ -1,5 +1,5 @@
 (* C02 — Integration is exact for polynomial data on cells and facets  (PARTIAL, see below).
-   Only statements.  Gen.C02Gen is regenerated on every run from mapping_affine.py, cell_basis.py,
+   Only statements.  Gen.C02Gen is regenerated on every run from mapping_affine.py, mapping_isoparametric.py, cell_basis.py,
    facet_basis.py, abstract_basis.py; the facts about it are proved in Dyn.C02Tie for EVERY commutative
    ring / field (given by its ring_theory / field_theory), the summation theorems in
    Proofs.C02_IntegrationProofs.
@@ -57,6 +57,17 @@ Section AnyRing.
              (omul O (dot3 R O b00 b10 b20 b01 b11 b21) (dot3 R O b00 b10 b20 b01 b11 b21)).
   Proof. intros. split; [exact (detB2_gram R O Rth b00 b10)|exact (detB3_gram R O Rth b00 b01 b10 b11 b20 b21)]. Qed.
 
+  (* the point-wise Jacobian factors of the isoparametric mapping are the same determinants *)
+  Theorem C02_isoparametric_dets_partial : forall (a : nat -> nat -> R) (b00 b01 b10 b11 b20 b21 : R),
+    (iso_detDF1 O (a 0 0) = leibniz R O 1 a /\
+     iso_detDF2 O (a 0 0) (a 0 1) (a 1 0) (a 1 1) = leibniz R O 2 a /\
+     iso_detDF3 O (a 0 0) (a 0 1) (a 0 2) (a 1 0) (a 1 1) (a 1 2) (a 2 0) (a 2 1) (a 2 2) = leibniz R O 3 a) /\
+    (iso_detDG2_sq O b00 b10 = oadd O (omul O b00 b00) (omul O b10 b10) /\
+     iso_detDG3_sq O b00 b01 b10 b11 b20 b21
+     = osub O (omul O (dot3 R O b00 b10 b20 b00 b10 b20) (dot3 R O b01 b11 b21 b01 b11 b21))
+              (omul O (dot3 R O b00 b10 b20 b01 b11 b21) (dot3 R O b00 b10 b20 b01 b11 b21))).
+  Proof. intros. split; [exact (iso_detDF_leibniz R O Rth a)|exact (iso_detDG_gram R O Rth b00 b01 b10 b11 b20 b21)]. Qed.
+
   Theorem C02_facet_vertex_order_partial : forall v : nat -> nat -> R,
     Forall (fun s => facet_sq2 R O (vperm R s v) = facet_sq2 R O v) (perms (seq 0 2)) /\
     Forall (fun s => facet_sq3 R O (vperm R s v) = facet_sq3 R O v) (perms (seq 0 3)).
@@ -84,6 +95,7 @@ Print Assumptions C02_det_translation_partial.
 Print Assumptions C02_det_linear_map_partial.
 Print Assumptions C02_detB_is_gram_partial.
 Print Assumptions C02_facet_vertex_order_partial.
+Print Assumptions C02_isoparametric_dets_partial.
 Print Assumptions C02_dx_total_partial.
 Print Assumptions C02_mass_sum_is_measure_partial.
 
